@@ -273,6 +273,11 @@ func (e *Engine) Explore(fn *ssa.Function, name string) *HarnessResult {
 			wk := &worker{ctx: smt.NewCtx()}
 			var err error
 			wk.sol, err = smt.NewSolver(e.SolverKind, wk.ctx, e.TimeoutMs)
+			if d := os.Getenv("GOSMT_SMTLOG"); d != "" && err == nil {
+				if f, ferr := os.Create(fmt.Sprintf("%s/w%d.smt2", d, w)); ferr == nil {
+					wk.sol.Log = f
+				}
+			}
 			if err != nil {
 				mu.Lock()
 				hr.Unsupported["solver start: "+err.Error()]++
@@ -307,6 +312,11 @@ func (e *Engine) Explore(fn *ssa.Function, name string) *HarnessResult {
 					wk.sol.Close()
 					wk.ctx = smt.NewCtx()
 					wk.sol, _ = smt.NewSolver(e.SolverKind, wk.ctx, e.TimeoutMs)
+					if d := os.Getenv("GOSMT_SMTLOG"); d != "" && wk.sol != nil {
+						if f, ferr := os.Create(fmt.Sprintf("%s/w%d.%d.smt2", d, w, npaths)); ferr == nil {
+							wk.sol.Log = f
+						}
+					}
 					wk.sol.Queries, wk.sol.SolverDur = q, d
 				}
 				mu.Lock()
